@@ -584,6 +584,9 @@ var idMu sync.Mutex
 
 func gen(t *rapid.T) FileSpec {
 	f := FileSpec{ID: rapid.IntRange(0, 999).Draw(t, "id")}
+	if rapid.IntRange(0, 5).Draw(t, "pathTail") == 0 {
+		f.PathTail = rapid.SampledFrom([]string{"acme-weather/v2", "v2", "x.y/v3", "api/v1"}).Draw(t, "pathTailV")
+	}
 	f.Package = rapid.SampledFrom([]string{"", "", "foo", "foo.bar.v1", "acme.user_service.v2", "X", "store.v1", "payments.v1", "test.http.v2", "s", "https"}).Draw(t, "package")
 	if rapid.Bool().Draw(t, "goPkgName") {
 		f.GoPkgName = rapid.SampledFrom([]string{"foov1", "pb", "api_v1"}).Draw(t, "gopkgname")
